@@ -80,8 +80,8 @@ macro "kt_step" : tactic => `(tactic| first
   | exact KT.throw _
   | (apply KT.upd (by assumption); intro _ hv; exact hv)
   | assumption
-  | (apply KT.bind_tree)
-  | (apply KT.bind_read)
+  | (refine KT.bind_tree ?_ ?_)
+  | (refine KT.bind_read ?_)
   | intro _
   | split
   | dsimp only)
@@ -364,11 +364,11 @@ macro "safe_lemma" : tactic => `(tactic| first
 /-- the side condition of `keeps_updObj`: the written value lies inside the table -/
 macro "val_side" : tactic => `(tactic| first
   | (intro _ hv; exact hv)
-  | (intro _ _; exact trivial)
-  | (intro _ _; exact valIn_sliceVal (by assumption)))
+  | (intro _ _; exact valIn_sliceVal (by assumption))
+  | (intro _ _; simp only [ValIn]))
 
 /-- one structural step of a `Keeps (PInv d)` proof -/
-macro "keeps_step" : tactic => `(tactic| first
+macro "keeps_step" : tactic => `(tactic| with_reducible first
   | exact Keeps.pure trivial
   | exact Keeps.throw _
   | exact keeps_lex_parseString
@@ -386,9 +386,9 @@ macro "keeps_step" : tactic => `(tactic| first
   | exact keeps_tree (fun _ ht => kt_free ht _)
   | exact keeps_modify _ (fun _ => ⟨rfl, rfl⟩)
   | assumption
-  | (with_reducible apply_assumption)
+  | apply_assumption
   | (apply Keeps.tt; assumption)
-  | (with_reducible apply Keeps.bind)
+  | apply Keeps.bind
   | intro _
   | split
   | dsimp only)
@@ -430,13 +430,29 @@ theorem keeps_setNameValue (obj : Nat) : Keeps (PInv d) (setNameValue d obj) (fu
 theorem keeps_setOpcode (obj op : Nat) : Keeps (PInv d) (setOpcode obj op) (fun _ => True) := by
   unfold setOpcode; keeps_tac
 
-include hd in
-theorem keeps_parseSimpleArg (argType : Nat) : Keeps (PInv d) (parseSimpleArg d argType) (fun _ => True) := by
-  unfold parseSimpleArg
+theorem keeps_finishSimpleArg (obj : Nat) (res : PRes) : Keeps (PInv d) (finishSimpleArg obj res) (fun _ => True) := by
+  unfold finishSimpleArg; keeps_tac
+
+theorem keeps_simpleNum (obj op n : Nat) : Keeps (PInv d) (simpleNum d obj op n) (fun _ => True) := by
+  unfold simpleNum
   have h1 := @keeps_setNumValue d
-  have h2 := @keeps_setStringValue d
-  have h3 := keeps_setNameValue hd
-  have h4 := @keeps_setOpcode d
+  have h2 := @keeps_setOpcode d
+  have h3 := @keeps_finishSimpleArg d
+  keeps_tac
+
+theorem keeps_simpleString (obj : Nat) : Keeps (PInv d) (simpleString d obj) (fun _ => True) := by
+  unfold simpleString
+  have h1 := @keeps_setStringValue d
+  have h2 := @keeps_setOpcode d
+  have h3 := @keeps_finishSimpleArg d
+  keeps_tac
+
+include hd in
+theorem keeps_simpleName (obj : Nat) : Keeps (PInv d) (simpleName d obj) (fun _ => True) := by
+  unfold simpleName
+  have h1 := keeps_setNameValue hd
+  have h2 := @keeps_setOpcode d
+  have h3 := @keeps_finishSimpleArg d
   keeps_tac
 
 end
